@@ -336,6 +336,8 @@ def gen_psr_walk(rng):
                     'mode': rng.choice([None] + allmodes + [0x16, 0x1a, 0x05]), 'e': rng.getrandbits(1), 't1': rng.getrandbits(1), 'setmode': rng.choice(modes),
                     'bits': rng.getrandbits(8), 'dp': rng.getrandbits(16)})
     core = {'config': cfg, 'devices': devices, 'regs': regs, 'words': [], 'force': None, 'no_poke': []}
+    if rng.random() < 0.25:
+        core['twin'] = rng.choice([30, 60, 100])       # per cent of the ticks preceded by a detour through the other instruction set (sim/stream.py)
     return {'scenario': 'psr_walk', 'cores': [core], 'ops': ops, 'thumb': thumb, 'events': [], 'max_ticks': 10 ** 9, 'stop_at_done': False}
 
 
